@@ -45,6 +45,13 @@ var zzScripts = []zzScript{
 	{"stray-continue", "continue", 2},
 	{"go-function-error-value", "strconv = import(\"strconv\")\nr = strconv.Atoi(\"x\")\nprintln(r[1] != nil)", 0},
 	{"empty", "", 0},
+	// statements whose meaning depends on the whole program being one run
+	{"top-level-return-guard", "if len(args) == 0 {\n println(\"usage\")\n return\n}\nprintln(args[0])", 0},
+	{"top-level-return-then-more", "println(\"a\")\nreturn 1\nprintln(\"b\")", 0},
+	{"top-level-defer-order", "defer println(\"bye\")\nprintln(\"hello\")", 0},
+	{"top-level-defer-after-error", "defer println(\"cleanup\")\nprintln(\"x\")\nthrow \"late\"", 2},
+	{"function-defined-late-used-early", "println(f())\nfunc f() { return 1 }", 2},
+	{"result-of-last-statement-is-not-printed", "1 + 2", 0},
 	// builtins that look at the environment the script runs in
 	{"defined-own-names", "x = 1\nprintln(defined(\"x\"))\nprintln(defined(\"nosuch\"))\nprintln(defined(\"println\"))\nprintln(defined(\"args\"))", 0},
 	{"defined-gates-a-throw", "func helper(a) { return a }\nif !defined(\"helper\") { throw \"helper is missing\" }\nprintln(helper(3))", 0},
